@@ -844,7 +844,7 @@ func init() {
 		ChunkSize:    2,
 		ChildTimeout: 600,
 		Parallel:     10,
-		Rule:         "seven scenarios by case number. (windows) every pair (AtLeastOnceMax, ExactlyOnceMax) from {0,1,2,3,7,16383,16384,-1,16385,100000}^2 is drawn in turn: both windows are filled against a silent broker, exactly the normalised maximum must be accepted, the next two publishes must return ErrMax at once (goroutine + structural wedge detection) without a Persistence operation, the other level stays independent; after the broker answers, capacity is back and a refilled window hits the same limit. (concurrent) with one slot of a window of 1-3 free, 2-6 goroutines publish at once while the first of them is held inside Persistence.Save: exactly one is accepted, the others return ErrMax, none blocks. (history) 16,384+N publishes per level (thorough: up to 70,000, four wraps) from one goroutine per level while the broker withholds and releases acknowledgements so that the in-flight window keeps changing (1..64, or the maximum itself), optionally with injected Save failures and denied publishes in between; every ErrMax must coincide with a full window. (unordered) k (quick 40-512, thorough 512) subscribe/unsubscribe requests open at once, requests beyond the slot limit, a third abandoned by quit and replaced, answers released late; then one request kept open while 8,200 others run so that the identifier counter meets it; and requests canceled during a pending reconnect, others abandoned with the answer owed, new ones after them (no identifier goes out again while the broker owes an answer under it). (parked) a Subscribe takes its identifier and waits for the write lock behind a writer stuck in Write while the connection goes; it is written on the next connection, and no later request goes out under its identifier while the broker owes the answer. (other maximum) a session with 1-3 transfers per stage pending is adopted with every maximum around the pending counts: refused at once when a level holds more, adopted otherwise, never blocking. (restart) C02's stop-point enumeration restricted to stop points whose pending range lies across the 14-bit wrap, two generations. Oracles: identifiers on the wire inside the range of their kind; an identifier is given to another message only after the record of the previous holder was removed (store and wire trace); no two subscribe/unsubscribe requests in flight share an identifier (wire write to call return); accepted minus finally acknowledged never exceeds the normalised maximum (final acknowledgements counted when handed to the client's Read). Non-trivial: a limit probe, an identifier wrap, or a counter round; distinct by configuration and scenario parameters.",
+		Rule:         "eight scenarios by case number. (windows) every pair (AtLeastOnceMax, ExactlyOnceMax) from {0,1,2,3,7,16383,16384,-1,16385,100000}^2 is drawn in turn: both windows are filled against a silent broker, exactly the normalised maximum must be accepted, the next two publishes must return ErrMax at once (goroutine + structural wedge detection) without a Persistence operation, the other level stays independent; after the broker answers, capacity is back and a refilled window hits the same limit. (concurrent) with one slot of a window of 1-3 free, 2-6 goroutines publish at once while the first of them is held inside Persistence.Save: exactly one is accepted, the others return ErrMax, none blocks. (history) 16,384+N publishes per level (thorough: up to 70,000, four wraps) from one goroutine per level while the broker withholds and releases acknowledgements so that the in-flight window keeps changing (1..64, or the maximum itself), optionally with injected Save failures and denied publishes in between; every ErrMax must coincide with a full window. (unordered) k (quick 40-512, thorough 512) subscribe/unsubscribe requests open at once, requests beyond the slot limit, a third abandoned by quit and replaced, answers released late; then one request kept open while 8,200 others run so that the identifier counter meets it; and requests canceled during a pending reconnect, others abandoned with the answer owed, new ones after them (no identifier goes out again while the broker owes an answer under it). (full release window, one case) a session is stopped with all 16,384 exactly-once identifiers at the PUBREL stage, the oldest somewhere inside the identifier space, and adopted: everything completes and new publishes follow. (parked) a Subscribe takes its identifier and waits for the write lock behind a writer stuck in Write while the connection goes; it is written on the next connection, and no later request goes out under its identifier while the broker owes the answer. (other maximum) a session with 1-3 transfers per stage pending is adopted with every maximum around the pending counts: refused at once when a level holds more, adopted otherwise, never blocking. (restart) C02's stop-point enumeration restricted to stop points whose pending range lies across the 14-bit wrap, two generations. Oracles: identifiers on the wire inside the range of their kind; an identifier is given to another message only after the record of the previous holder was removed (store and wire trace); no two subscribe/unsubscribe requests in flight share an identifier (wire write to call return); accepted minus finally acknowledged never exceeds the normalised maximum (final acknowledgements counted when handed to the client's Read). Non-trivial: a limit probe, an identifier wrap, or a counter round; distinct by configuration and scenario parameters.",
 		Assumptions: []string{
 			"in-flight is counted from API returns and bytes handed to Read, which never exceeds the client's own count",
 			"the broker answers in order per acknowledgement type; the long-open subscribe is answered by hand",
@@ -854,6 +854,10 @@ func init() {
 			switch c.Case % 4 {
 			case 0:
 				i := c.Case / 4
+				if c.Case == 8 {
+					c17FullReleaseWindow(c)
+					return
+				}
 				if i%4 == 3 {
 					c17Concurrent(c, 1+c.Rng.Intn(2), 1+c.Rng.Intn(3), 2+c.Rng.Intn(5))
 					return
@@ -1218,4 +1222,30 @@ func c17ParkedAcrossLoss(c *run.Ctx) {
 	if !d.CloseAndWait() {
 		c.Spoiled()
 	}
+}
+
+// c17FullReleaseWindow stops a session whose whole exactly-once window (all
+// 16,384 identifiers, starting somewhere inside the sequence) is at the PUBREL
+// stage and adopts it: the window is full, not empty.
+func c17FullReleaseWindow(c *run.Ctx) {
+	base := c16Base(c, 0, 0x4000, 0, 0, true)
+	if base == nil {
+		return
+	}
+	rel := 0
+	for k, v := range base.content {
+		if k >= 0xc000 && k <= 0xffff {
+			if pk, err := wire.Decode(stripTrailer(v), true); err == nil && pk.Type == wire.PUBREL {
+				rel++
+			}
+		}
+	}
+	c.Count("release_records_at_the_stop", rel)
+	if rel != 0x4000 {
+		c.Inconclusive(fmt.Sprintf("the window holds %d PUBREL records, not 16384", rel))
+		return
+	}
+	stats := &c16Stats{}
+	c16Adopt(c, base, false, false, stats)
+	c.Trigger("full-release-window")
 }
